@@ -131,10 +131,11 @@ def run(ctx, R, tier):
 
     # ---------------------------------------------------------------- R3 (shared with C07-R5)
     from ..report import Rules
+    from ..report import run_shared as _run_shared
     from . import c07
     R7 = Rules("C07")
     try:
-        c07.run(ctx, R7, tier)
+        _run_shared(ctx, c07, R7, tier)
     except AnalysisError as _shared_x:
         # the other property's own anchors are gone on this tree: its check reports that; what it produced before is still shared
         R.note("obligations shared from C07 are incomplete on this tree: %s" % _shared_x)
@@ -154,7 +155,7 @@ def run(ctx, R, tier):
     from . import c01
     R1 = Rules("C01")
     try:
-        c01.run(ctx, R1, tier)
+        _run_shared(ctx, c01, R1, tier)
     except AnalysisError as _shared_x:
         # the other property's own anchors are gone on this tree: its check reports that; what it produced before is still shared
         R.note("obligations shared from C01 are incomplete on this tree: %s" % _shared_x)
